@@ -86,10 +86,18 @@ class Tracer:
                 tr.noops.append(('execute', n, s0 == account_state() and self_.status == before))
                 return r
             tr.events.append(('FILL', n, store.app.time, self_.symbol, self_.side, self_.type, self_.qty, self_.price))
+
+            def wallet():
+                try:
+                    ex = store.exchanges.storage[self_.exchange]
+                    return float(ex.wallet_balance) if ex.type == 'futures' else None
+                except Exception:  # noqa
+                    return None
+            w0 = wallet()
             r = o_exec(self_, silent)
             p = self_.position
             if p is not None:
-                tr.events.append(('POS', self_.symbol, p.qty, p.entry_price))
+                tr.events.append(('POS', self_.symbol, p.qty, p.entry_price, w0, wallet()))
             return r
 
         def cancel(self_, silent=False, source=''):
@@ -374,6 +382,13 @@ def gen_script(rng, spot=False, step=0.125, rich=True, tight=False, force=None):
                 s[side]['tp'] = [(t / 2, sg * off(6, 9)), (t / 2, sg * off(10, 14))] if rng.random() < 0.5 else [(t, sg * off(6, 12))]
     elif style == 'on_open':
         s['on_open'] = {'sl': [(0, off(5, 12))], 'tp': [(0, off(5, 12))]}
+        if rich and rng.random() < 0.2:
+            # an exit AT the entry price, declared from the hook of the entry's fill: with a MARKET entry the exit is
+            # at the current price, so it becomes a MARKET order submitted while the pending MARKET orders are drained
+            # (half of the position, or all of it)
+            half = rng.random() < 0.5
+            rows = [(dsum([tot]) / 2 if half and kind in ('market', 'limit', 'stop') else 0, 0.0)]
+            s['on_open'][rng.choice(['sl', 'tp'])] = rows
     if rng.random() < 0.5:
         s['cancel_after'] = rng.choice([1, 2, 4])
     if rich and rng.random() < 0.4:
